@@ -310,6 +310,10 @@ func c03Collude(r *mon.Run, jr *rand.Rand, shape string, keys []*world.Key, cred
 		pu.SSecret = cp(secrets[a])
 		pu.ExtraR0 = true
 		run("collude-extraR0", "extra R0 response", pu)
+		// override form: MUserResponses[0] is the complete, genuine response for R_0 and SResponse is simply copied from member a
+		pu3 := refimpl.NewUProver(keys[b].PK, map[int]*big.Int{0: secrets[b]}, nil)
+		pu3.Override, pu3.STargetRand, pu3.STargetSecret = true, rs, cp(secrets[a])
+		run("collude-extraR0", "R0 response moved into m_user_responses[0], s_response copied", pu3)
 		// same, commitment carrying an additional blind attribute
 		pu2 := refimpl.NewUProver(keys[b].PK, map[int]*big.Int{0: secrets[b], 2: randBig(jr, 200)}, rs)
 		pu2.SSecret = cp(secrets[a])
